@@ -309,7 +309,7 @@ def check(ctx):
                               'executed unconditionally by every rank in every iteration')
                 # R6: total calls, local result reduced
                 a = ae['args']
-                Nk = sel(sym('iteration_calls'), ls.idx)
+                Nk = sel(calls_list_term(d), ls.idx)
                 kres = ('hcall', kern) + tuple(ke['args'])
                 ok6 = a[-1] == Nk and a[1] == kres
                 if ok6:
